@@ -147,6 +147,15 @@ func (e *boolEnv) nilOf(fr *Frame, v ssa.Value) (isNil, known bool) {
 		if n, ok := e.isNil[v]; ok {
 			return n, true
 		}
+		switch x := v.(type) {
+		case *ssa.MakeInterface, *ssa.Alloc:
+			return false, true // never nil
+		case *ssa.Call:
+			switch calleeName(x) {
+			case "fmt.Errorf", "errors.New":
+				return false, true // documented to return a non-nil error
+			}
+		}
 		if p, ok := v.(*ssa.Parameter); ok && fr != nil {
 			c := fr.Canon(p)
 			if c == ssa.Value(p) {
